@@ -138,7 +138,12 @@ func (task *genericTask) NextAction(ctx context.Context, flow Flow) chan IAction
 		response:    response,
 	}
 
-	task.mch <- msg
+	select {
+	case task.mch <- msg:
+	case <-ctx.Done():
+		// the node's loop may have left already; the token's own select
+		// observes the cancellation
+	}
 	return response
 }
 
